@@ -20,13 +20,16 @@ ASSUMPTIONS = ["default configuration plus the stock refresh_pattern lines (memo
                "field values contain no CR, LF or NUL (they cannot, on the wire)"]
 MANIFEST = {
     "engine": "e2e",
-    "text": "partial: for the model of HttpHdrCc::parse + strListGetItem + getCc, maybeCacheable / storeCreateEntry, HttpStateData::reusableReply and the "
-            "key handling of haveParsedReplyHeaders, theorems no_store_or_private_never_public, request_no_store_never_public, "
-            "auth_public_only_if_shared_ok, forbidden_never_served_from_cache (second request of the scenario model is a miss), "
-            "auth_nocache_always_reaches_origin, and the parser lemmas directive_alone_is_recognised / token_directive_in_list_is_recognised "
-            "(a well-formed no-store/private in a quote-balanced list is always seen, any case, any spacing); counterexample "
-            "quote_leak_hides_no_store for a quote opened in an earlier field line. The model is tied to the rebuilt binary by scenario correspondence "
-            "(logged decision + reason, hit/revalidation/miss at the origin, which response the client got) and a direct oracle with its own RFC 9110 list parser",
+    "text": "partial: for the model of strListGetItem + HttpHdrCc::parse + getCc, maybeCacheable / clientInterpretRequestHeaders flags / storeCreateEntry, "
+            "HttpStateData::reusableReply, the key handling of haveParsedReplyHeaders and refreshCheck: no_store_or_private_never_public, "
+            "request_no_store_never_public, request_no_store_entry_released, auth_public_only_if_shared_ok, auth_nocache_always_revalidated (all inputs); "
+            "forbidden_never_served_from_cache and auth_always_reaches_origin for the two-request scenario model (any field bytes, status, dates, method); "
+            "wellformed_lines_no_store_recognised / _private_recognised + directive_spelling_recognised: in quote-balanced comma lists over any number of "
+            "field lines the directive is always seen (any case, spacing, duplicates, arguments), giving wellformed_*_never_served_partial; "
+            "counterexamples quote_leak_hides_no_store_counterexample (quote left open in an earlier field line) and not_modified_no_store_counterexample "
+            "(304 carrying no-store), with not_modified_forbidden_not_reused_partial for the repaired 304 branch. The model is tied to the rebuilt binary by "
+            "scenario correspondence (logged decision + reason, hit/revalidation/miss at the origin, which response the client got) and a direct oracle with "
+            "its own strict RFC 9110 list parser",
     "note": "trusted: Lean kernel, python rig (origin/client stubs), loopback TCP, squid's debug line; not modelled: socket I/O, message parser, "
             "Vary, collapsed forwarding, disk stores, peers, adaptation, the runtime between the decision and the reply bytes",
     "technique": "Lean 4 proof about the decision model + generated tables (status groups, directive names, method classes, defaults) + end-to-end scenario correspondence with the rebuilt squid",
@@ -51,8 +54,23 @@ def mk(cfg="d", method="GET", auth=0, reqcc=(), status=200, respcc=(), ctype=Non
                      t(date), t(exp), t(lm), t(age), str(clen), str(pragma), second])
 
 
+def mk3(nmcc, **kw):
+    """three-request scenario: request 2's revalidation is answered by a 304 carrying the Cache-Control lines `nmcc`"""
+    return "R " + mk(**kw) + " " + (",".join(hx(v) for v in nmcc) if nmcc else ".")
+
+
 def parts(l):
     f = l.split(" ")
+    nmcc = None
+    if f[0] == "R":
+        nmcc = [] if f[15] == "." else [unhx(x) for x in f[15].split(",")]
+        f = f[1:15]
+    p = _parts(f)
+    p["nmcc"] = nmcc
+    return p
+
+
+def _parts(f):
     cfg, method, auth, reqcc, status, respcc, ctype, date, exp, lm, age, clen, pragma, second = f
     return {"cfg": cfg, "method": method, "auth": int(auth), "reqcc": [] if reqcc == "." else [unhx(x) for x in reqcc.split(",")],
             "status": int(status), "respcc": [] if respcc == "." else [unhx(x) for x in respcc.split(",")],
@@ -180,7 +198,7 @@ def times(rng, status):
     exp = rng.choice([None, None, None, None, -100000, -3600, 3600, 100000, "=", "b"])
     if exp == "=":
         exp = date
-    lm = rng.choice([None, None, None, -10, -1000, -100000, -31536000, 3600])
+    lm = rng.choice([None, None, None, -1, -1000, -100000, -31536000, 3600])   # -1: L-M factor lifetime 0 s; never a lifetime of a few seconds
     age = rng.choice([None, None, None, None, None, 0, 100, 100000])
     if exp == "b" and status in (302, 307) and date not in (None, -7200):
         date = None      # Expires: 0 becomes "now"; comparing it with a Date of "now" is a race
@@ -227,6 +245,23 @@ def scenario(rng, kind):
     return mk(cfg, method, auth, clean(reqcc), status, clean(respcc), ctype, date, exp, lm, age, clen, pragma, second)
 
 
+NM_FIRST = [[b"max-age=0"], [b"no-cache"], [b"max-age=0, must-revalidate"], [b"s-maxage=0"], [b"max-age=0, public"], [], [b"max-age=3600"],
+            [b"no-store"], [b"max-age=0", b"proxy-revalidate"]]
+NM_CC = [[b"no-store"], [b"private"], [b"no-store, max-age=3600"], [b"private, max-age=3600"], [b"max-age=3600"], [], [b"max-age=0"], [b"no-cache"],
+         [b"public, max-age=3600"], [b"No-Store"], [b'private="set-cookie", max-age=3600'], [b"max-age=3600", b"no-store"], [b"no-storex, max-age=3600"],
+         [b'x="a', b"no-store"], [b"must-revalidate, max-age=3600"], [b"immutable, max-age=300"]]
+
+
+def scenario3(rng):
+    first = rng.choice(NM_FIRST)
+    nm = rng.choice(NM_CC)
+    if rng.chance(1, 4):
+        nm = cc_lines(rng, 0)
+    lm = rng.choice([-100000, -100000, -31536000, None, -1])
+    exp = rng.choice([None, None, None, -3600, 3600])
+    return mk3(clean(nm), respcc=clean(first), lm=lm, exp=exp, status=rng.choice([200, 200, 200, 203, 301, 410]))
+
+
 def exhaustive(tier):
     return tier == "thorough"
 
@@ -237,8 +272,17 @@ def cases(rng, tier):
         for cc in ([], [b"no-store"], [b"private"], [b"public"], [b"must-revalidate"], [b"s-maxage=3600"], [b"max-age=3600"], [b"no-cache"],
                    [b"max-age=3600, public"], [b"max-age=3600", b"no-store"], [b"public, private"], [b'private="set-cookie", max-age=3600']):
             yield mk(auth=auth, respcc=cc, lm=-100000)
+    # every flag directive next to an explicit lifetime, with and without credentials: only public / must-revalidate / s-maxage (and, in
+    # this build, no-cache) may let an authenticated response be stored
+    for d in FLAGS + [b"s-maxage=3600", b"stale-if-error=300", b"foo"]:
+        for auth in (0, 1):
+            yield mk(auth=auth, respcc=[d + b", max-age=3600"], second="A")
     yield mk(reqcc=[b"no-store"], respcc=[b"max-age=3600"])
     yield mk(reqcc=[b"no-store"], respcc=[b"max-age=3600"], second="S")
+    for nm in ([b"no-store"], [b"private, max-age=3600"], [b"max-age=3600"], []):
+        yield mk3(nm, respcc=[b"max-age=0"], lm=-100000)
+    for i in range(300 if tier == "thorough" else 40):
+        yield scenario3(rng)
     n = 2400 if tier == "thorough" else 330
     for i in range(n):
         r = rng.below(20)
@@ -350,8 +394,15 @@ def premises(p):
 
 
 def obs(impl):
-    m = re.fullmatch(r"d=(\S+) k=(\S+) b=(\S+)", impl or "")
-    return m.groups() if m else None
+    """-> (decision, kind of request 2, X-Seq seen by the last request, kind of request 3 or None)"""
+    m = re.fullmatch(r"d=(\S+) k=(\S+)(?: k3=(\S+))? b=(\S+)", impl or "")
+    return (m.group(1), m.group(2), m.group(4), m.group(3)) if m else None
+
+
+def premises304(p):
+    """the 304 of a three-request scenario was sent with no-store / private (strict per-line reading)"""
+    nm = [d for v in (p["nmcc"] or []) for d in (strict_list(v.strip(b" \t")) or [])]
+    return [x for x, name in (("304-no-store", b"no-store"), ("304-private", b"private")) if any(n == name for n, _ in nm)]
 
 
 def oracle(l, impl):
@@ -363,8 +414,17 @@ def oracle(l, impl):
         return "no usable observation: " + str(impl)
     if p["cfg"] != "d" or p["method"] not in ("GET", "HEAD"):
         return None     # the statement is about default settings; responses to other methods are never stored (checked by correspondence)
-    d, k, b = o
+    d, k, b, k3 = o
     pr = premises(p)
+    if p["nmcc"] is not None:
+        if k not in ("hit", "reval", "miss") or k3 not in ("hit", "reval", "miss"):
+            return "no usable observation: " + str(impl)
+        p3 = premises304(p)
+        if k == "reval" and p3 and k3 == "hit":
+            return "third request was served from cache without contacting the origin although the 304 that refreshed the entry carried: " + ",".join(p3)
+        if pr and (k == "hit" or k3 == "hit" or (pr != ["auth"] and (k != "miss" or k3 != "miss" or b != "3"))):
+            return "a later request was served from cache although: " + ",".join(pr)
+        return None
     if not pr:
         return None
     if k == "hit":
@@ -376,21 +436,32 @@ def oracle(l, impl):
     return None
 
 
-def quote_leak(lines):
-    """a quote opened in one field line is still open when a later line starts (the code joins the lines before splitting)"""
-    open_q = False
-    for idx, v in enumerate(lines):
-        if open_q and idx > 0:
-            return True
-        i = 0
-        while i < len(v):
-            c = v[i]
-            if c == 34:
-                open_q = not open_q
-            elif c == 92 and open_q:
-                i += 1
-            i += 1
-    return False
+def joined_names(lines):
+    """directive names seen when the field lines are joined with ", " first and quotes may span the former line ends (RFC quoting)"""
+    v = b", ".join(lines)
+    names, cur, quoted, i = set(), bytearray(), False, 0
+    while i < len(v):
+        c = v[i]
+        if quoted and c == 92 and i + 1 < len(v):
+            cur += v[i:i + 2]
+            i += 2
+            continue
+        if c == 34:
+            quoted = not quoted
+        if c == 44 and not quoted:
+            names.add(bytes(cur).strip(b" \t").split(b"=")[0].lower())
+            cur = bytearray()
+        else:
+            cur.append(c)
+        i += 1
+    names.add(bytes(cur).strip(b" \t").split(b"=")[0].lower())
+    return names
+
+
+def quote_leak(lines, name):
+    """`name` is a directive of a well-formed field line, but joining the lines hides it inside a quoted-string opened in an earlier line"""
+    per_line = any(n == name for v in lines for n, _ in (strict_list(v.strip(b" \t")) or []))
+    return per_line and name not in joined_names(lines)
 
 
 def classify(l, impl, why):
@@ -399,16 +470,20 @@ def classify(l, impl, why):
     if o is None:
         return None
     pr = premises(p)
+    if p["nmcc"] is not None and not pr and o[1] == "reval" and o[3] == "hit" and premises304(p):
+        return "C11-304-no-store-ignored"
     if pr == ["auth"] and o[1] == "reval" and o[2] == "1":
         names = lenient_names(p["respcc"])
         if b"no-cache" in names:
             return "C11-auth-no-cache-stored"
     leak = []
-    if "resp-no-store" in pr or "resp-private" in pr:
-        leak.append(quote_leak(p["respcc"]))
+    if "resp-no-store" in pr:
+        leak.append(quote_leak(p["respcc"], b"no-store"))
+    if "resp-private" in pr:
+        leak.append(quote_leak(p["respcc"], b"private"))
     if "req-no-store" in pr:
-        leak.append(quote_leak(p["reqcc"]))
-    if leak and all(leak) and "auth" not in pr:
+        leak.append(quote_leak(p["reqcc"], b"no-store"))
+    if leak and all(leak) and "auth" not in pr:     # every premise of the failing case is hidden by the join
         return "C11-quote-leak-across-lines"
     return None
 
@@ -419,7 +494,7 @@ def compare(l, impl, model):
 
 def nontrivial(l, impl, model):
     p = parts(l)
-    return p["cfg"] == "d" and bool(premises(p))
+    return p["cfg"] == "d" and (bool(premises(p)) or (p["nmcc"] is not None and bool(premises304(p))))
 
 
 def tag(l, impl, model):
@@ -427,20 +502,26 @@ def tag(l, impl, model):
     o = obs(impl)
     pr = premises(p)
     cls = "+".join(x.replace("resp-", "") for x in pr) if pr else "free"
+    if p["nmcc"] is not None:
+        cls = "R:" + cls + ("/" + "+".join(premises304(p)) if premises304(p) else "")
     if o is None:
         return "%s %s -> %s" % (p["cfg"], cls, (impl or "")[:30])
-    return "%s %s %s -> %s %s" % (p["cfg"], p["method"] if p["method"] in ("GET", "HEAD") else "other", cls, o[0].split("|")[0], o[1])
+    return "%s %s %s -> %s %s%s" % (p["cfg"], p["method"] if p["method"] in ("GET", "HEAD") else "other", cls, o[0].split("|")[0], o[1],
+                                    "" if o[3] is None else "," + o[3])
 
 
 def shrink(l):
     """drop field lines, directives and optional fields"""
     p = parts(l)
     def emit(q):
+        base = emit0(q)
+        return base if q["nmcc"] is None else "R " + base + " " + (",".join(hx(v) for v in q["nmcc"]) if q["nmcc"] else ".")
+    def emit0(q):
         return mk(q["cfg"], q["method"], q["auth"], q["reqcc"], q["status"], q["respcc"], q["ctype"],
                   None if q["date"] == "x" else int(q["date"]),
                   None if q["exp"] == "x" else ("b" if q["exp"] == "b" else int(q["exp"])),
                   None if q["lm"] == "x" else int(q["lm"]), None if q["age"] == "x" else int(q["age"]), q["clen"], int(q["pragma"]), q["second"])
-    for key in ("respcc", "reqcc"):
+    for key in ("respcc", "reqcc") + (("nmcc",) if p["nmcc"] is not None else ()):
         for i in range(len(p[key])):
             q = dict(p)
             q[key] = p[key][:i] + p[key][i + 1:]
